@@ -21,6 +21,7 @@ import (
 	"testing"
 	"time"
 
+	"github.com/scigolib/hdf5/internal/core"
 	"github.com/scigolib/hdf5/internal/verif/vkit"
 	"github.com/scigolib/hdf5/internal/verif/vos"
 )
@@ -420,10 +421,55 @@ func TestVerif_C07Worker(t *testing.T) {
 	fmt.Fprintln(out, "D")
 }
 
+// vfC07AttributeUnit: unit-level enumeration of the attribute value reader with several
+// deviations at once (the file-level enumeration has bound 1): every combination of datatype
+// class x element size x dataspace x number of data bytes present from small boundary sets is
+// handed to Attribute.ReadValue; it must return (an error or a value) without panicking. The
+// counts that are not small are beyond 2^59, where an allocation sized by them panics in
+// makeslice instead of exhausting memory.
+func vfC07AttributeUnit(r *vkit.Run) {
+	r.Rule("unit level, several deviations: core.Attribute.ReadValue on every combination of datatype class {fixed, float, string, variable-length string, opaque} x element size {0,1,3,4,8,2^31,2^32-1} x dataspace {scalar, [0], [1], [3], [2^60], [2^63], [2^64-1], [2^32,2^32], [3,2^62]} x data bytes present {0,1,4,8,24} — no panic")
+	classes := []struct {
+		name string
+		c    core.DatatypeClass
+		bits uint32
+	}{{"fixed", core.DatatypeFixed, 0x08}, {"float", core.DatatypeFloat, 0x20}, {"string", core.DatatypeString, 0}, {"vlen-string", core.DatatypeVarLen, 0x01}, {"opaque", core.DatatypeOpaque, 0}}
+	sizes := []uint32{0, 1, 3, 4, 8, 1 << 31, 1<<32 - 1}
+	spaces := [][]uint64{nil, {0}, {1}, {3}, {1 << 60}, {1 << 63}, {^uint64(0)}, {1 << 32, 1 << 32}, {3, 1 << 62}}
+	lens := []int{0, 1, 4, 8, 24}
+	var n int64
+	for _, cl := range classes {
+		for _, sz := range sizes {
+			for _, sp := range spaces {
+				for _, ln := range lens {
+					n++
+					detail := map[string]any{"class": cl.name, "size": sz, "dims": sp, "data_bytes": ln}
+					r.Cases(1)
+					r.Guard("attribute-unit/", detail, func() {
+						a := &core.Attribute{Name: "a", Datatype: &core.DatatypeMessage{Class: cl.c, Version: 1, Size: sz, ClassBitField: cl.bits, Properties: []byte{0, 0, 32, 0, 0, 0, 0, 0, 0, 0, 0, 0}},
+							Dataspace: &core.DataspaceMessage{Version: 1, Type: core.DataspaceSimple, Dimensions: sp}, Data: make([]byte, ln)}
+						if sp == nil {
+							a.Dataspace.Type = core.DataspaceScalar
+						}
+						_, err := a.ReadValue()
+						if err != nil {
+							r.Outcome("attribute-unit/error")
+						} else {
+							r.Outcome("attribute-unit/value")
+						}
+					})
+				}
+			}
+		}
+	}
+	r.Distinct("attribute value reader inputs", n)
+}
+
 func TestVerif_C07(t *testing.T) {
 	r := vkit.Start(t, "C07", "fault_enumeration")
 	defer r.Finish()
 	dir := vkit.Scratch(t)
+	vfC07AttributeUnit(r)
 	bases := vfLibBaseFiles(t, dir)
 	// is the os->vos redirection active in this build? With it the harness records which bytes
 	// of a base file the complete read traversal reads; deviations are then enumerated over
